@@ -375,10 +375,10 @@ def corner_programs():
 
 
 def empties_ok(prog):
-    """an empty numeric cell makes subtract() / multiply() raise and between() answer by rules of its own: files for csvpaths that
-    use none of them may have empty n / m cells (add(), int(), sum(), counter() read '' as 0; comparisons and equality fall back to text)"""
+    """an empty numeric cell makes subtract() / multiply() raise: files for csvpaths that use neither may have empty n / m cells
+    (add(), int(), sum(), counter() read '' as 0; comparisons, between() and the equalities fall back to text)"""
     text = " ".join(c[0] for c in prog["comps"])
-    return not any(f in text for f in ("subtract(", "multiply(", "between("))
+    return not any(f in text for f in ("subtract(", "multiply("))
 
 
 def gen_rows(rng, echo=False, empties=False):
